@@ -863,6 +863,7 @@ Fixpoint frames_of (gnext : list placement) (ops : list gop) : list (bool * list
   | ODraw p ww wh :: t => frames_of (draw_into gnext p ww wh) t
   | ORender :: t => (false, gnext) :: frames_of gnext t
   | ORefresh :: t => (true, gnext) :: frames_of gnext t
+  | OResize _ :: t => frames_of gnext t
   end.
 
 Fixpoint spec_events (prev : list placement) (frames : list (bool * list placement)) : list (list gevent) :=
@@ -880,6 +881,7 @@ Proof.
   - rewrite IH. reflexivity.
   - rewrite render_graphics_spec. rewrite IH. reflexivity.
   - rewrite render_graphics_spec. rewrite IH. reflexivity.
+  - apply IH.
 Qed.
 
 (* a placement shown in some frame was drawn into a window at least as large as the image *)
@@ -890,7 +892,7 @@ Lemma frames_of_inside ops :
 Proof.
   induction ops as [|o t IH]; intros Q gnext HQ i r cur p H I.
   - destruct i; discriminate.
-  - destruct o as [|q ww wh| |]; cbn [frames_of] in H.
+  - destruct o as [|q ww wh| | |j0]; cbn [frames_of] in H.
     + destruct (IH Q [] ltac:(intros ? []) i r cur p H I) as [L|[a [b [J K]]]]; [left; exact L|].
       right. exists a, b. split; [right; exact J | exact K].
     + set (Q' := fun p' => Q p' \/ (p' = q /\ p_w q <= ww /\ p_h q <= wh)).
@@ -912,6 +914,8 @@ Proof.
       * injection H as <- <-. left. apply HQ. exact I.
       * destruct (IH Q gnext HQ j r cur p H I) as [L | [a [b [J K]]]]; [left; exact L|].
         right. exists a, b. split; [right; exact J | exact K].
+    + destruct (IH Q gnext HQ i r cur p H I) as [L | [a [b [J K]]]]; [left; exact L|].
+      right. exists a, b. split; [right; exact J | exact K].
 Qed.
 
 Theorem placement_inside_window ops i r cur p :
@@ -1280,4 +1284,124 @@ Proof.
   { apply Z.ltb_lt in E2. exfalso. nia. }
   destruct (Z.even (P / Q)) eqn:E3; [exact E3|].
   rewrite Z.even_add, E3. reflexivity.
+Qed.
+
+(* ================================================================== image data *)
+
+Lemma mem_id_In i l : mem_id i l = true <-> In i l.
+Proof.
+  unfold mem_id. rewrite existsb_exists. split.
+  - intros [j [I E]]. apply Z.eqb_eq in E. subst. exact I.
+  - intros I. exists i. split; [exact I | apply Z.eqb_refl].
+Qed.
+
+Lemma remove_id_In i j l : In j (remove_id i l) <-> In j l /\ j <> i.
+Proof.
+  unfold remove_id. rewrite filter_In. split; intros [A B]; split; try assumption.
+  - intros ->. rewrite Z.eqb_refl in B. discriminate.
+  - destruct (j =? i) eqn:E; [apply Z.eqb_eq in E; contradiction | reflexivity].
+Qed.
+
+(* without the image data the wire events are the placement events *)
+Lemma send_events_erase pending evs : filter not_data (send_events pending evs) = map ev_key evs.
+Proof.
+  revert pending. induction evs as [|e t IH]; intros pending; [reflexivity|].
+  destruct e as [p | p]; cbn [send_events map ev_key].
+  - cbn [filter not_data Z.eqb Pos.eqb negb]. f_equal. apply IH.
+  - destruct (mem_id (p_id p) pending); cbn [filter not_data Z.eqb Pos.eqb negb]; f_equal; apply IH.
+Qed.
+
+Theorem kitty_frames_erase ops : forall s pending,
+  map (fun f => filter not_data (snd f)) (kitty_frames s pending ops) = map (map ev_key) (run_ops s ops).
+Proof.
+  induction ops as [|o t IH]; intros s pending; [reflexivity|].
+  destruct o; cbn [kitty_frames run_ops].
+  - apply IH.
+  - apply IH.
+  - rewrite render_graphics_spec. cbn [fst map snd]. rewrite send_events_erase. f_equal. apply IH.
+  - rewrite render_graphics_spec. cbn [fst map snd]. rewrite send_events_erase. f_equal. apply IH.
+  - apply IH.
+Qed.
+
+(* data is sent only for pending images ... *)
+Lemma uploads_pending evs : forall pending i,
+  In i (upload_ids (send_events pending evs)) -> In i pending.
+Proof.
+  induction evs as [|e t IH]; intros pending i H; [destruct H|].
+  destruct e as [p | p]; cbn [send_events] in H.
+  - cbn [upload_ids flat_map Z.eqb Pos.eqb app] in H. apply IH. exact H.
+  - destruct (mem_id (p_id p) pending) eqn:M.
+    + cbn [upload_ids flat_map Z.eqb Pos.eqb app] in H. destruct H as [<- | H]; [apply mem_id_In; exact M|].
+      apply IH in H. apply remove_id_In in H. apply H.
+    + cbn [upload_ids flat_map Z.eqb Pos.eqb app] in H. apply IH. exact H.
+Qed.
+
+(* ... at most once per frame ... *)
+Lemma uploads_nodup evs : forall pending, nodup_ids (upload_ids (send_events pending evs)) = true.
+Proof.
+  induction evs as [|e t IH]; intros pending; [reflexivity|].
+  destruct e as [p | p]; cbn [send_events].
+  - cbn [upload_ids flat_map Z.eqb Pos.eqb app]. apply IH.
+  - destruct (mem_id (p_id p) pending) eqn:M.
+    + cbn [upload_ids flat_map Z.eqb Pos.eqb app nodup_ids].
+      fold (upload_ids (send_events (remove_id (p_id p) pending) t)).
+      rewrite IH, andb_true_r.
+      destruct (mem_id (p_id p) (upload_ids (send_events (remove_id (p_id p) pending) t))) eqn:N; [|reflexivity].
+      apply mem_id_In in N. apply uploads_pending in N. apply remove_id_In in N. destruct N as [_ N]. contradiction.
+    + cbn [upload_ids flat_map Z.eqb Pos.eqb app]. apply IH.
+Qed.
+
+(* ... and with the first write of a placement of that image *)
+Lemma uploads_written evs : forall pending p,
+  In (GWrite p) evs -> In (p_id p) pending -> In (p_id p) (upload_ids (send_events pending evs)).
+Proof.
+  induction evs as [|e t IH]; intros pending p H I; [destruct H|].
+  destruct e as [q | q]; cbn [send_events].
+  - cbn [upload_ids flat_map Z.eqb Pos.eqb app]. destruct H as [E | H]; [discriminate|]. apply IH; assumption.
+  - destruct (mem_id (p_id q) pending) eqn:M.
+    + cbn [upload_ids flat_map Z.eqb Pos.eqb app].
+      destruct (Z.eq_dec (p_id q) (p_id p)) as [E | NE]; [left; exact E|]. right.
+      destruct H as [E | H]; [injection E as ->; contradiction|].
+      apply IH; [exact H|]. apply remove_id_In. split; [exact I | congruence].
+    + cbn [upload_ids flat_map Z.eqb Pos.eqb app].
+      destruct H as [E | H].
+      * injection E as ->. apply mem_id_In in I. congruence.
+      * apply IH; assumption.
+Qed.
+
+Lemma frame_trans_ok r pending prev cur :
+  stale_frame r pending prev cur = false ->
+  trans_frame_ok pending cur (send_events pending (frame_events r prev cur)) = true.
+Proof.
+  intros G. unfold trans_frame_ok.
+  apply andb_true_intro; split; [apply andb_true_intro; split|].
+  - apply forallb_forall. intros p I.
+    destruct (mem_id (p_id p) pending) eqn:M; [|reflexivity]. cbn [negb orb].
+    apply mem_id_In. apply uploads_written; [|apply mem_id_In; exact M].
+    apply frame_events_write. split; [exact I|].
+    destruct r; [left; reflexivity|right]. intros P.
+    unfold stale_frame in G. cbn [negb andb] in G.
+    assert (E : existsb (fun p0 => mem_id (p_id p0) pending && mem_p p0 prev) cur = true).
+    { apply existsb_exists. exists p. split; [exact I|]. rewrite M. apply mem_p_In in P. rewrite P. reflexivity. }
+    congruence.
+  - apply forallb_forall. intros i I. apply mem_id_In. eapply uploads_pending. exact I.
+  - apply uploads_nodup.
+Qed.
+
+(* Outside the guard of the recorded finding, every history transmits the image data as the
+   property demands *)
+Theorem transmission_guarded ops : forall s pending,
+  stale_guard s pending ops = false ->
+  trans_ok pending ops (kitty_frames s pending ops) = true.
+Proof.
+  induction ops as [|o t IH]; intros s pending G; [reflexivity|].
+  destruct o; cbn [stale_guard kitty_frames trans_ok] in *.
+  - apply IH. exact G.
+  - apply IH. exact G.
+  - apply orb_false_iff in G. destruct G as [G1 G2].
+    rewrite render_graphics_spec in *. cbn [fst] in *.
+    rewrite (frame_trans_ok false pending (g_last s) (g_next s) G1). cbn [andb]. apply IH. exact G2.
+  - rewrite render_graphics_spec in *. cbn [fst] in *.
+    rewrite (frame_trans_ok true pending (g_last s) (g_next s) eq_refl). cbn [andb]. apply IH. exact G.
+  - apply IH. exact G.
 Qed.
